@@ -126,6 +126,9 @@ def run(ctx: Ctx):
         if isinstance(n, ast.AugAssign) and u(n.target) == "self.epoch":
             return f"EPOCH{type(n.op).__name__}={u(n.value)}"
         if isinstance(n, ast.Assign) and any(u(t) == "self.epoch" for t in n.targets):
+            v_ = n.value  # `self.epoch = self.epoch + 1` is the same advance as `self.epoch += 1`
+            if isinstance(v_, ast.BinOp) and isinstance(v_.op, ast.Add) and "self.epoch" in (u(v_.left), u(v_.right)):
+                return f"EPOCHAdd={u(v_.right) if u(v_.left) == 'self.epoch' else u(v_.left)}"
             return f"EPOCH:={u(n.value)}"
         return None
 
@@ -218,8 +221,13 @@ def run(ctx: Ctx):
     drop_ok = False
     for st in ast.walk(node_d):
         if isinstance(st, ast.Assign) and "self.effective_total" in _targets(st) and any(_mentions_remainder(t, inl_d) for t, _ in guards_of(pm_d, st)):
-            w = n.poly(ast.parse("self.total - self.total % self._world_size", mode="eval").body)
-            drop_ok = not padd(n.poly(inl_d.expand(st.value)), w, -1)
+            # compared with total - total % world at a grid of (total, world) - `total // world * world` is the same number
+            from sa.inteval import NotEvaluable, int_eval
+            try:
+                drop_ok = all(int_eval(inl_d.expand(st.value), {"self.total": t_, "self._world_size": w_}) == t_ - t_ % w_
+                              for t_ in range(0, 14) for w_ in range(1, 6))
+            except NotEvaluable:
+                drop_ok = False
     col.ob("G12", "S3", f"{where}::drop-branch", drop_ok,
            "under 'drop' effective_total is not total - total % world_size (ranks would get unequal counts)",
            rel, init.line)
@@ -332,13 +340,26 @@ def _seed_domain(ctx: Ctx):
     rel = f.module.relname
     rd = ReachingDefs(f.node)
     stores = [n for n in own_nodes(f.node) if isinstance(n, ast.Assign) and any(u(t) == "self.base_seed" for t in n.targets)]
-    if len(stores) != 1 or not isinstance(stores[0].value, ast.Name):
-        raise AnalysisError("C13: EpochRandomSampler.__init__ does not store self.base_seed from a local once")
-    der = rd.derives(stores[0].value)
-    calls = [call_name(c) for c in der.calls()]
-    upper = any(c in ("argcheck.is_lte", "argcheck.is_lt", "argcheck.is_btw", "argcheck.is_btw_closed", "argcheck.is_btw_open") for c in calls)
-    lower = any(c in ("argcheck.is_gte", "argcheck.is_gt", "argcheck.is_nonneg", "argcheck.is_nonnegi", "argcheck.is_nat", "argcheck.is_posi",
-                      "argcheck.is_pos", "argcheck.is_btw", "argcheck.is_btw_closed", "argcheck.is_btw_open", "argcheck.as_nonnegi", "argcheck.as_nat") for c in calls)
+    if not stores:
+        raise AnalysisError("C13: EpochRandomSampler.__init__ does not store self.base_seed")
+    UP = ("argcheck.is_lte", "argcheck.is_lt", "argcheck.is_btw", "argcheck.is_btw_closed", "argcheck.is_btw_open")
+    LO = ("argcheck.is_gte", "argcheck.is_gt", "argcheck.is_nonneg", "argcheck.is_nonnegi", "argcheck.is_nat", "argcheck.is_posi",
+          "argcheck.is_pos", "argcheck.is_btw", "argcheck.is_btw_closed", "argcheck.is_btw_open", "argcheck.as_nonnegi", "argcheck.as_nat")
+    # one store after the branches, or one per branch: every stored value that comes from the caller's seed is bounded on both
+    # sides; the calls behind all stored values together are searched for process-local randomness
+    calls, upper, lower, n_user = [], True, True, 0
+    pname = "base_seed"
+    for st_ in stores:
+        der = rd.derives(st_.value)
+        cs = [call_name(c) for c in der.calls()] + [call_name(c) for c in ast.walk(st_.value) if isinstance(c, ast.Call)]
+        calls += cs
+        from_user = pname in der.params() or any(isinstance(x, ast.Name) and x.id == pname and any(d.kind == "param" for d in rd.defs_of(x))
+                                                 for x in ast.walk(st_.value))
+        if from_user:
+            n_user += 1
+            upper = upper and any(c in UP for c in cs)
+            lower = lower and any(c in LO for c in cs)
+    upper, lower = upper and n_user > 0, lower and n_user > 0
     col.ob("G3", "S5", f"{rel}::EpochRandomSampler.__init__::seed-bounded-on-both-sides", upper and lower,
            f"`base_seed` is validated by {sorted(set(c for c in calls if c.startswith('argcheck.')))}: bounded above but not below, so "
            f"EpochRandomSampler(ds, base_seed=-1) is constructed and every iteration then raises 'Seed must be between 0 and "
